@@ -308,4 +308,7 @@ def run(prog: Program, tier: str) -> List[RuleResult]:
     from .c03 import domain_cache
 
     # the caching iterator behind every variable domain: a value lost from the cache is a solution lost from every later evaluation
-    return [ep_bound(prog), ep_gate(prog), or_form(prog), ep_neg(prog), domain_cache(prog)]
+    from .c01 import ep_selected
+
+    # a row whose selected value is falsy is a solution like any other
+    return [ep_bound(prog), ep_gate(prog), or_form(prog), ep_neg(prog), domain_cache(prog), ep_selected(prog)]
